@@ -413,11 +413,16 @@ func (mr *msgReader) Read(p []byte) (n int, err error) {
 		p = p[:n]
 		mr.dict.write(p)
 	}
-	if errors.Is(err, io.EOF) || errors.Is(err, io.ErrUnexpectedEOF) && mr.fin && mr.flate {
+	// The message ends cleanly only once the final frame has been consumed completely.
+	// An EOF from the transport in the middle of a message must not be mistaken for it.
+	if mr.fin && mr.payloadLength == 0 && (errors.Is(err, io.EOF) || errors.Is(err, io.ErrUnexpectedEOF) && mr.flate) {
 		mr.putFlateReader()
 		return n, io.EOF
 	}
 	if err != nil {
+		if errors.Is(err, io.EOF) {
+			err = io.ErrUnexpectedEOF
+		}
 		return n, fmt.Errorf("failed to read: %w", err)
 	}
 	return n, nil
